@@ -92,6 +92,9 @@ func runAnalysisTie(r *rep.Report, thorough bool, opt synth.Options, parts []str
 			o.Risky = false
 		}
 		cases := genCases(rng, per, fmt.Sprintf("%s%d", prefix, b), o)
+		if b == 0 {
+			cases = append(cases, synth.HandWritten()...)
+		}
 		l, err := load.Cases(cases)
 		if err != nil {
 			return err
@@ -278,6 +281,16 @@ func fill(v reflect.Value, depth int) {
 	}
 }
 
+func isSubsequence(a, b []string) bool {
+	j := 0
+	for _, x := range b {
+		if j < len(a) && a[j] == x {
+			j++
+		}
+	}
+	return j == len(a)
+}
+
 // orderedKeys returns the top-level keys of a JSON object in document order
 func orderedKeys(b []byte) []string {
 	dec := json.NewDecoder(strings.NewReader(string(b)))
@@ -371,6 +384,7 @@ func runC09(r *rep.Report, thorough bool) error {
 	opt := synth.DefaultOptions()
 	opt.Structs = 6
 	cases := genCases(rng, n, "c09", opt)
+	cases = append(cases, synth.HandWritten()...)
 	l, err := load.Cases(cases)
 	if err != nil {
 		return err
@@ -462,6 +476,15 @@ func runC09(r *rep.Report, thorough bool) error {
 				sig := "c09:struct-keys-differ-from-encoding-json"
 				if strings.Contains(strings.Join(implKeys, "|"), ",") {
 					sig = "c09:json-name-keeps-tag-options"
+				}
+				hasEmbedded := false
+				for _, gf := range tf.Under.Fields {
+					if gf.Embedded {
+						hasEmbedded = true
+					}
+				}
+				if hasEmbedded && len(implKeys) < len(realFiltered) && isSubsequence(implKeys, realFiltered) {
+					sig = "c09:embedded-struct-flattened-while-incomplete"
 				}
 				sort.Strings(nil)
 				r.Fail(rep.Failure{Signature: sig, What: "exported fields / JSON names of the analysed struct differ from the keys encoding/json emits", Input: in, Expected: realFiltered, Observed: implKeys})
